@@ -222,9 +222,16 @@ Definition C02_prop : core_case -> bool := walk_case C02_commit C02_rollback.
 Definition validity_rows (g : cfg) (vt : vtable) : vtable :=
   filter (fun r => k_validity (cls_of g (tab_cls (vkey r)))) vt.
 
+(* joined-table hierarchies: a version row in a child table is closed by the next version of the key in the
+   BASE table of the hierarchy (whatever class that version has), and is open while there is none *)
+Definition hier_chain_ok (g : cfg) (vt : vtable) : bool :=
+  forallb (fun cc =>
+     forallb (fun x => negb (existsb (Z.eqb (hd 0 (vkey x))) (k_also cc)) ||
+                       oz_eqb (vend x) (min_above vt (k_tab cc :: tl (vkey x)) (vtx x))) vt) (g_classes g).
+
 Definition C03_prop (c : core_case) : bool :=
   negb (cc_exc c) &&
-  forallb (fun sn => chain_okb (validity_rows (cc_cfg c) (sn_vt sn))) (cc_snaps c).
+  forallb (fun sn => chain_okb (validity_rows (cc_cfg c) (sn_vt sn)) && hier_chain_ok (cc_cfg c) (sn_vt sn)) (cc_snaps c).
 
 (* ------------------------------------------------------------------ C11 *)
 Fixpoint coalesce (acc : option Z) (ks : list Z) : option Z :=
